@@ -187,7 +187,7 @@ def build(tier, seed):
                              'minimum-duration-plus-one-sample', 'two-sample-record', 'near-equal-steps', 'near-integer-quotient',
                              'time-scale-small', 'time-scale-large', 'integer-typed-steps', 'value-scale-1e-09', 'value-scale-1e+06',
                              'container-i64', 'container-i16', 'container-u8', 'container-f32', 'container-list',
-                             'container-tuple', 'object-history-longer-before', 'object-history-shorter-before', 'a-b-a', 'option-flip-sequence',
+                             'container-tuple', 'object-history-longer-before', 'object-history-shorter-before', 'a-b-a', 'option-flip-sequence', 'object-history-in-place-edit',
                              'returned-array-overwritten', 'default-after-explicit',
                              'long-record', 'long-pow2', 'long-pow2-minus-1', 'long-pow2-plus-1', 'long-pow10',
                              'long-above-2**15-5-smooth', 'long-above-2**15-not-5-smooth', 'long-above-2**16',
@@ -374,6 +374,11 @@ def harmonic_family(n, nn, cap):
         single.append((['cos', k], np.cos(pi_), np.cos(po)))
         if k:
             single.append((['sin', k], np.sin(pi_), np.sin(po)))
+    if n % 2 == 0 and nn > n:
+        # refinement of an even-length record: the alternating record cos(pi j) sits exactly ON the old Nyquist frequency - periodic over
+        # the record and strictly below the new one, so the statement covers it (its bin needs splitting between +f and -f)
+        k = n // 2
+        single.append((['cos', k, 'on the old Nyquist frequency'], np.cos(math.pi * (ji % 2)), np.cos(2 * math.pi * ((jo * k) % nn) / nn)))
     fam = list(single)
     if cap is not None and n > 12 and len(single) > 2 * cap:
         pool = single[:cap] + single[-cap:]
@@ -650,7 +655,12 @@ def run_sequences(r, base, dt, tg, n, even, rec_a):
                      ('reset_values(B)', lambda: s.reset_values(B.copy()), B),
                      ('reset_values(A)-again', lambda: s.reset_values(A.copy()), A),
                      ('after-statistics', lambda: exercise(s), A),
-                     ('defaults-after-explicit', None, A))
+                     ('defaults-after-explicit', None, A),
+                     # edits that rewrite the stored record without going through reset_values: the record examined is the one the
+                     # object holds afterwards
+                     ('running_average(3)', lambda: s.running_average(3), None),
+                     ('rebase_displacement', (lambda: s.rebase_displacement()) if hasattr(s, 'rebase_displacement') else (lambda: s.running_average(2)), None),
+                     ('remove_average', lambda: s.remove_average(), None))
             for step, change, x in steps:
                 s2 = dict(sub, step=step)
                 pre = 'interp' if fname == 'object' else 'fourier'
@@ -663,6 +673,14 @@ def run_sequences(r, base, dt, tg, n, even, rec_a):
                     ok, _ = r.call(pre + '.returns', s2, change)
                     if not ok:
                         break
+                    if x is None:
+                        try:
+                            x = np.array(s.values, dtype=float)
+                            if x.shape != A.shape or not np.all(np.isfinite(x)):
+                                break
+                            r.cls('object-history-in-place-edit')
+                        except Exception:
+                            break
                 r.states += 1
                 r.transitions += 1
                 if change is None:
